@@ -1,7 +1,7 @@
 (** C20: query-log files are read backwards completely; timestamp seeks land
     on the entry.  Only statements here; proofs live in Proofs/QLogFile.v. *)
 From Coq Require Import ZArith List.
-From AGH Require Import Model.QLogFile Proofs.QLogFile.
+From AGH Require Import Model.QLogFile Proofs.QLogFile Proofs.QLogFileAbsent.
 Import ListNotations.
 Local Open Scope Z_scope.
 
@@ -77,8 +77,9 @@ Print Assumptions C20_seek_present.
 
 (** C20_seek_absent, the two outer classes: a stamp newer than every line is
     reported too-late, one older than every line too-early (never a position,
-    never the depth limit).  [PARTIAL: the not-found class for a stamp between
-    two neighbouring lines is validated by the correspondence, not proved.] *)
+    never the depth limit).  The third class (a stamp between two neighbouring
+    lines) is C20_seek_absent_between below; C20_seek_absent states all three
+    by the rank of the stamp. *)
 Theorem C20_seek_too_late : forall me (f : qfile) ts,
   0 < me -> lines_ok me f -> stamps_nonzero f -> size_ok f -> f <> [] ->
   (forall k l t, nth_error f k = Some (l, t) -> t < ts) ->
@@ -120,3 +121,70 @@ Theorem C20_two_files_seek_newer : forall me buf (fs : list qfile) n f ts,
     forall fuel, (length (all_rev fs) < fuel)%nat -> reader_read_all me buf fuel r' = all_rev fs.
 Proof. exact reader_seek_newer. Qed.
 Print Assumptions C20_two_files_seek_newer.
+
+(** C20_seek_absent, the inner class: a stamp strictly between the stamps of
+    two neighbouring lines is reported not-found -- never too-early, too-late,
+    a position or the depth limit (interval invariant of the binary search:
+    both edges are line starts around the boundary between the neighbours, the
+    scope halves; once it is empty the newer neighbour is probed twice, which
+    is the not-found exit because that line does not start at offset 0). *)
+Theorem C20_seek_absent_between : forall me (f : qfile) t l1 t1 l2 t2 ts,
+  0 < me -> lines_ok me f -> stamps_nonzero f -> sorted_ts f -> size_ok f ->
+  nth_error f t = Some (l1, t1) -> nth_error f (S t) = Some (l2, t2) -> t1 < ts < t2 ->
+  seek_ts me f ts = NotFound.
+Proof. exact seek_absent_between. Qed.
+Print Assumptions C20_seek_absent_between.
+
+(** C20_seek_absent: every absent stamp, by its rank [r] = number of older
+    lines: too-early (r = 0), too-late (r = all), not-found (otherwise). *)
+Theorem C20_seek_absent : forall me (f : qfile) ts r,
+  0 < me -> lines_ok me f -> stamps_nonzero f -> sorted_ts f -> size_ok f -> f <> [] ->
+  (r <= length f)%nat ->
+  (forall k l t, nth_error f k = Some (l, t) -> (k < r)%nat -> t < ts) ->
+  (forall k l t, nth_error f k = Some (l, t) -> (r <= k)%nat -> ts < t) ->
+  seek_ts me f ts = if Nat.eqb r 0 then TooEarly else if Nat.eqb r (length f) then TooLate else NotFound.
+Proof. exact seek_absent. Qed.
+Print Assumptions C20_seek_absent.
+
+Example C20_seek_absent_example :
+  let f := [(5, 11); (7, 13); (3, 15); (6, 17)] in
+  lines_ok 8 f /\ stamps_nonzero f /\ size_ok f /\
+  seek_ts 8 f 12 = NotFound /\ seek_ts 8 f 14 = NotFound /\ seek_ts 8 f 16 = NotFound /\
+  seek_ts 8 f 10 = TooEarly /\ seek_ts 8 f 18 = TooLate.
+Proof. exact seek_absent_example. Qed.
+Print Assumptions C20_seek_absent_example.
+
+(** C20_two_files, not-found part.  The stamp lies strictly between two
+    neighbouring lines of file [i]; every newer file lies wholly after it.
+    Then qLogReader.seekTS reports not-found, whatever the older files hold:
+    it does not fall back to the newest end (no silent rewind:
+    [r_fellback] stays false), no file's read position has moved ([poss]),
+    the current file is unchanged. *)
+Theorem C20_two_files_seek_absent : forall me (fs : list qfile) i f t l1 t1 l2 t2 ts,
+  0 < me -> Forall (file_ok me) fs ->
+  nth_error fs i = Some f -> sorted_ts f ->
+  nth_error f t = Some (l1, t1) -> nth_error f (S t) = Some (l2, t2) -> t1 < ts < t2 ->
+  (forall j f', (i < j)%nat -> nth_error fs j = Some f' -> all_newer ts f') ->
+  exists r', reader_seek_ts me ts (new_reader fs) = (RNotFound, r') /\
+    r_fellback r' = false /\ r_cur r' = r_cur (new_reader fs) /\
+    poss r' = poss (new_reader fs) /\ files r' = fs.
+Proof. exact reader_seek_absent. Qed.
+Print Assumptions C20_two_files_seek_absent.
+
+(** Any reader-level seek that ends in an error moved no read position. *)
+Theorem C20_reader_failed_seek_keeps_positions : forall me ts n r res r',
+  reader_seek_loop me n ts r = (res, r') -> res = RNotFound \/ res = ROther ->
+  poss r' = poss r /\ r_cur r' = r_cur r /\ r_fellback r' = r_fellback r /\ files r' = files r.
+Proof. exact reader_seek_loop_failed. Qed.
+Print Assumptions C20_reader_failed_seek_keeps_positions.
+
+Example C20_two_files_seek_absent_example :
+  let old := [(5, 1); (4, 2)] in
+  let cur := [(5, 11); (7, 13); (3, 15)] in
+  Forall (file_ok 8) [old; cur] /\
+  fst (reader_seek_ts 8 12 (new_reader [old; cur])) = RNotFound /\
+  fst (reader_seek_ts 8 14 (new_reader [old; cur])) = RNotFound /\
+  fst (reader_seek_ts 8 5 (new_reader [old; cur])) = RFellBack /\
+  fst (reader_seek_ts 8 13 (new_reader [old; cur])) = RFound.
+Proof. exact reader_absent_example. Qed.
+Print Assumptions C20_two_files_seek_absent_example.
